@@ -800,6 +800,13 @@ class C03(Prop):
         "threading.Lock/Condition as specified (cooperative versions of harness/detsched.py)",
     ]
 
+    # -- translator: shape of the worker code (Gen/RpcShape.lean) ---------------------------------
+    def translate(self, ctx: Ctx):
+        from harness import core, tr_rpcshape
+        gen = core.LEAN / "QmiModel" / "Gen" / "RpcShape.lean"
+        core.write_if_changed(gen, tr_rpcshape.render(tr_rpcshape.extract(core.REPO)))
+        return [gen]
+
     # -- one scenario: run, refine, judge ---------------------------------------------------------
     def _one(self, seed, scn, policy, cps, res, batch, extra_trace=False):
         out = run_impl(seed, scn, policy=policy, change_points=cps, extra_trace=extra_trace)
